@@ -52,9 +52,14 @@ CLAIMED.update({
             "operator_table and optimize_operator regenerated from pixman.c; for every row and opacity cell (except SATURATE) the "
             "replacement operator is proved to give identical channels under that opacity assumption, for all pixels; mask elision "
             "proved; paired presentations of the same opaque content (x8r8g8b8 / alpha 255 / solid / repeating) composited through "
-            "the library must be bit-identical and equal the model.",
-            TB + "Partial: SATURATE row accepted unproved (float pipeline); the opacity flag computation is proved only for bits "
-            "formats without alpha and solid alpha 255; transforms/filters/partly-outside rectangles are not generated here (C08/C04).",
+            "the library must be bit-identical and equal the model. Opacity decision of pixman_image_composite32 modelled literally "
+            "(C14's compute_image_info + C04's analyze_extent + the regenerated NEAREST_OPAQUE/BILINEAR_OPAQUE promotion block): flag "
+            "soundness proved for solids, alpha-less bits images, and the cover-flag promotion (every sample inside the image, via C04); "
+            "SATURATE row proved over exact rationals; the arguments of every fast-path lookup (captured with --wrap) must equal the "
+            "model; presentations paired under transforms, filters, repeats and wide destinations; independent sample-geometry flag oracle.",
+            TB + "Partial: gradient opacity rule only as a flag rule (renderers not connected); 'sample inside => alpha 255' and the "
+            "bilinear blend are not composed into one theorem; 'ID_TRANSFORM bit => no transform' is a hypothesis (checked by the "
+            "harness); alpha maps, clips, accessors, separable convolution excluded from the paired streams.",
             TECH, "DESIGN.md 6/C09"),
     "C11": ("proof",
             "Model of pixman-matrix.c with C integer widths; 128/48-bit schoolbook division proved exact to nearest, affine and "
@@ -74,7 +79,9 @@ CLAIMED.update({
             "composite/fill/glyph/trapezoid drawing for 11 destination formats incl. a1/a4/24bpp under 2 implementation chains.",
             TB + "Exactness is claimed for alpha maps without a clip region (with one: reported region is a subset of the property's "
             "intersection). Partial: 'every composite routine honours its box' and the sub-byte/padding frame are differential "
-            "(canary oracle), not proved; the 16-bit wrapper is correspondence/oracle only (known finding: coordinates > 32767).",
+            "(canary oracle), not proved; the 16-bit wrapper is correspondence/oracle only (known finding: coordinates > 32767). The "
+            "theorems' hypothesis RangeOK = no int overflow AND every consulted clip canonical; requests with a hand-built non-canonical "
+            "clip (unreachable through the region API) are compared with the model only, not with the point oracle.",
             TECH, "DESIGN.md 6/C03"),
 })
 
